@@ -14,10 +14,21 @@ def install_time64_summary(E):
     frac = z3.Function("ntpfrac", BV64, z3.BitVecSort(32))
     apps = []
 
+    ufS = z3.Function("ntp_sec_of_ns", BV64, z3.BitVecSort(32))
+    ufF = z3.Function("ntp_frac_of_ns", BV64, z3.BitVecSort(32))
+
     def t64(E, name, args, ins):
         t = args[0]
         if t.ns is not None:
-            raise Exception("Time64 summary needs the pair time model")
+            # ns64 model: both fields are uninterpreted functions of the instant (congruence only);
+            # the exact definition is used to refine counterexamples
+            S, F = ufS(t.ns), ufF(t.ns)
+            q = t.ns / bv(1000000000)
+            r = z3.SRem(t.ns, bv(1000000000))
+            sec = z3.If(r < 0, q - 1, q)
+            nsec = z3.If(r < 0, r + 1000000000, r)
+            E.refinements.append(z3.And(S == z3.Extract(31, 0, sec - bv(NTP_EPOCH)), F == z3.Extract(31, 0, (nsec << 32) / bv(1000000000))))
+            return SV([S, F])
         sec = z3.Extract(31, 0, t.sec - bv(NTP_EPOCH))
         ns = t.nsec
         f = frac(ns)
@@ -81,3 +92,61 @@ def install_fp_duration_summaries(E):
     E.intercepts["(time.Duration).Seconds"] = seconds
     from . import stubs
     stubs.doc("timemath.Duration / Duration.Seconds (summary)", install_fp_duration_summaries.__doc__)
+
+
+def install_timefrom64_summary(E):
+    """ntp.TimeFromTime64(t, t0) = time.Unix(sec, nsec) with sec an uninterpreted function of (t.Seconds,
+    t0.Unix()) and nsec an uninterpreted function of t.Fraction with 0 <= nsec < 1e9 (pair time model).
+    Guarantee: C04 (round trip, order, fields) on the real function; counterexamples are re-solved with
+    the exact definition before replay."""
+    usec = z3.Function("ntp_back_sec", z3.BitVecSort(32), BV64, BV64)
+    unsec = z3.Function("ntp_back_nsec", z3.BitVecSort(32), BV64)
+
+    def tft(E, name, args, ins):
+        t, t0 = args
+        S, F = t.f[0], t.f[1]
+        if t0.ns is not None:
+            ufB = E.ghost.setdefault("ntp_back_ns_uf", z3.Function("ntp_back_ns", z3.BitVecSort(32), z3.BitVecSort(32), BV64, BV64))
+            ns = ufB(S, F, t0.ns)
+            q = t0.ns / bv(1000000000)
+            r = z3.SRem(t0.ns, bv(1000000000))
+            tref = z3.If(r < 0, q - 1, q)
+            epoch = bv(NTP_EPOCH)
+            era = bv(1 << 32)
+            s0 = epoch + ((tref - epoch) / era) * era + z3.ZeroExt(32, S)
+            half = bv(1 << 31)
+            exact_sec = z3.If(s0 < tref - half, s0 + era, z3.If(s0 >= tref + half, s0 - era, s0))
+            exact_ns = (z3.ZeroExt(32, F) * bv(1000000000)) >> 32
+            E.refinements.append(ns == exact_sec * bv(1000000000) + exact_ns)
+            # results stay within the modelled range (the harness keeps all instants inside one era)
+            E.assume_global(z3.And(ns >= 0, ns < bv(1 << 62)), "TimeFromTime64 summary (ns64): result within 1970..2116")
+            # C04's guarantees for a stamp produced by Time64FromTime(a): inside the +-2^31 s window the
+            # round trip is within 1 ns and never later, and order is preserved
+            if z3.is_app(S) and z3.is_app(F) and S.decl().name() == "ntp_sec_of_ns" and F.decl().name() == "ntp_frac_of_ns" and S.arg(0).eq(F.arg(0)):
+                a = S.arg(0)
+                win = bv((1 << 31) * 1000000000 - 1000000000)
+                inwin = z3.And(a - t0.ns < win, t0.ns - a < win, a >= 0, t0.ns >= 0)
+                E.assume_global(z3.Implies(inwin, z3.And(ns <= a, a - ns <= 1)), "TimeFromTime64(Time64FromTime(a)) in [a-1ns, a] inside the window (C04 roundtrip)")
+                rts = E.ghost.setdefault("ntp_roundtrips", [])
+                for (a2, ref2, r2, w2) in rts:
+                    if ref2.eq(t0.ns):
+                        E.assume_global(z3.Implies(z3.And(inwin, w2, a <= a2), ns <= r2), "conversion preserves order inside the window (C04 order)")
+                        E.assume_global(z3.Implies(z3.And(inwin, w2, a2 <= a), r2 <= ns), "conversion preserves order inside the window (C04 order)")
+                rts.append((a, t0.ns, ns, inwin))
+            return TV(ns=ns)
+        tref = t0.sec
+        sec = usec(S, tref)
+        ns = unsec(F)
+        E.assume_global(z3.And(ns >= 0, ns < 1000000000), "TimeFromTime64 summary: nanoseconds in [0, 1e9)")
+        # exact definition (refinement only)
+        epoch = bv(NTP_EPOCH)
+        era = bv(1 << 32)
+        s0 = epoch + ((tref - epoch) / era) * era + z3.ZeroExt(32, S)
+        half = bv(1 << 31)
+        exact_sec = z3.If(s0 < tref - half, s0 + era, z3.If(s0 >= tref + half, s0 - era, s0))
+        exact_ns = (z3.ZeroExt(32, F) * bv(1000000000)) >> 32
+        E.refinements.append(z3.And(sec == exact_sec, ns == exact_ns))
+        return TV(sec=sec, nsec=ns)
+    E.intercepts["example.com/scion-time/net/ntp.TimeFromTime64"] = tft
+    from . import stubs
+    stubs.doc("ntp.TimeFromTime64 (summary)", install_timefrom64_summary.__doc__)
